@@ -90,7 +90,6 @@ Definition run_okb (stale : list nat) (rs : runspec) (o : robs) : bool :=
       && option_eqb Bool.eqb (o_reentry o) (if f_reenter (r_fn rs) then Some true else None)
       (* every leftover of the function either ran or is reported as junk, once *)
       && perm_eqb (o_ran o ++ filter not_timeout_tok (o_junk o)) (sched_tokens (r_fn rs))
-      && Nat.leb (count (o_junk o) tok_timeout) 1
   end.
 
 Fixpoint runs_okb (prev_junk : list nat) (rss : list runspec) (os : obs) : bool :=
@@ -121,7 +120,6 @@ Definition Run_spec (stale : list nat) (rs : runspec) (o : robs) : Prop :=
   | [] => Allowed (r_timeout rs) (r_fn rs) (o_res o)
           /\ o_reentry o = (if f_reenter (r_fn rs) then Some true else None)
           /\ (forall t, count (o_ran o ++ filter not_timeout_tok (o_junk o)) t = count (sched_tokens (r_fn rs)) t)
-          /\ count (o_junk o) tok_timeout <= 1
   end.
 
 Fixpoint Runs_spec (prev_junk : list nat) (rss : list runspec) (os : obs) : Prop :=
